@@ -122,7 +122,7 @@ type Site struct {
 	Owns []string
 }
 
-func conflict(a, b Site) bool {
+func Conflict(a, b Site) bool {
 	for _, x := range a.Owns {
 		for _, y := range b.Owns {
 			if x == y {
